@@ -8,6 +8,7 @@ import (
 	"flag"
 	"fmt"
 	"os"
+	"strings"
 
 	"github.com/mfcochauxlaberge/jsonapi"
 )
@@ -301,60 +302,16 @@ func schemaMain(args []string) {
 		return
 	}
 
+	rng := newRand(*seed, "schema")
+	stt := newStats()
+	stt.Exhaustive = true
+	w := newEvWriter(*out, 200000)
 	var alpha []sOp
+	var probes []string
 	type st struct {
 		Hist  []sOp   `json:"hist"`
 		State []jType `json:"state"`
 	}
-	var states []st
-	tlcLines(*gen, func(tag string, js []byte) {
-		switch tag {
-		case "ALPHA":
-			if alpha == nil {
-				must(json.Unmarshal(js, &alpha))
-			}
-		case "S":
-			var s st
-			must(json.Unmarshal(js, &s))
-			states = append(states, s)
-		}
-	})
-	if len(alpha) == 0 || len(states) == 0 {
-		infra("no alphabet or no states in %s", *gen)
-	}
-	probes := probesOf(alpha)
-	rng := newRand(*seed, "schema")
-	stt := newStats()
-	w := newEvWriter(*out, 200000)
-
-	// the probes travel with the cases so that a replay observes the same names
-	pb, _ := json.Marshal(map[string]any{"probes": probes})
-	must(os.WriteFile(*out+"/replay_extra.json", pb, 0o644))
-
-	chosen := states
-	if *sample > 0 && *sample < len(states) {
-		// always keep the shallow states, sample the rest
-		var shallow, deep []st
-		for _, s := range states {
-			if len(s.Hist) <= 2 {
-				shallow = append(shallow, s)
-			} else {
-				deep = append(deep, s)
-			}
-		}
-		rng.Shuffle(len(deep), func(i, j int) { deep[i], deep[j] = deep[j], deep[i] })
-		n := *sample - len(shallow)
-		if n < 0 {
-			n = 0
-		}
-		if n > len(deep) {
-			n = len(deep)
-		}
-		chosen = append(shallow, deep[:n]...)
-	} else {
-		stt.Exhaustive = true
-	}
-
 	emit := func(c sCase) {
 		ev := runSchemaCase(c, probes)
 		stt.Calls++
@@ -368,29 +325,81 @@ func schemaMain(args []string) {
 		}
 		w.Emit(ev, c)
 	}
-
-	for _, s := range chosen {
-		stt.States++
-		builds := []string{"hist"}
-		if *lit {
-			builds = append(builds, "lit")
+	allProbes := map[string]struct{}{}
+	var allAlpha []sOp
+	for _, genFile := range strings.Split(*gen, ",") {
+		if genFile == "" {
+			continue
 		}
-		for _, b := range builds {
-			// does the real history reach the model's state?  (judged by TLC
-			// step by step in the walks; here a mismatch would surface as pre
-			// differing from the model state, so record it as a note)
-			base := sCase{Fam: "schema", Build: b, Hist: s.Hist, State: s.State}
-			for _, op := range alpha {
+		alpha = nil
+		var states []st
+		tlcLines(genFile, func(tag string, js []byte) {
+			switch tag {
+			case "ALPHA":
+				if alpha == nil {
+					must(json.Unmarshal(js, &alpha))
+				}
+			case "S":
+				var s st
+				must(json.Unmarshal(js, &s))
+				states = append(states, s)
+			}
+		})
+		if len(alpha) == 0 || len(states) == 0 {
+			infra("no alphabet or no states in %s", genFile)
+		}
+		allAlpha = append(allAlpha, alpha...)
+		probes = probesOf(alpha)
+		for _, p := range probes {
+			allProbes[p] = struct{}{}
+		}
+		chosen := states
+		if *sample > 0 && *sample < len(states) {
+			// always keep the shallow states, sample the rest
+			var shallow, deep []st
+			for _, s := range states {
+				if len(s.Hist) <= 2 {
+					shallow = append(shallow, s)
+				} else {
+					deep = append(deep, s)
+				}
+			}
+			rng.Shuffle(len(deep), func(i, j int) { deep[i], deep[j] = deep[j], deep[i] })
+			n := *sample - len(shallow)
+			if n < 0 {
+				n = 0
+			}
+			if n > len(deep) {
+				n = len(deep)
+			}
+			chosen = append(shallow, deep[:n]...)
+			stt.Exhaustive = false
+		}
+		for _, s := range chosen {
+			stt.States++
+			builds := []string{"hist"}
+			if *lit {
+				builds = append(builds, "lit")
+			}
+			for _, b := range builds {
+				base := sCase{Fam: "schema", Build: b, Hist: s.Hist, State: s.State}
+				for _, op := range alpha {
+					c := base
+					c.Kind = "step"
+					c.Op = op
+					emit(c)
+				}
 				c := base
-				c.Kind = "step"
-				c.Op = op
+				c.Kind = "check"
 				emit(c)
 			}
-			c := base
-			c.Kind = "check"
-			emit(c)
 		}
 	}
+	// the probes travel with the cases so that a replay observes the same names
+	probes = sortedKeys(allProbes)
+	alpha = allAlpha
+	pb, _ := json.Marshal(map[string]any{"probes": probes})
+	must(os.WriteFile(*out+"/replay_extra.json", pb, 0o644))
 
 	// random walks: long histories through the real methods (hidden state such
 	// as shared backing arrays after a splice only shows on long histories)
